@@ -11,8 +11,10 @@
 (*   q        updates translated but not yet consumed by the explorer            *)
 (*   table    the explorer's table: set of <<job, id>>                           *)
 (* An SD update is a function from jobs to a sequence of groups; a group is       *)
-(* [bad, members]: members = set of [id, drop]; a bad group fails translation     *)
-(* and is skipped as a whole.                                                     *)
+(* [bad, members]: members = set of [id, drop]; a bad group holds one more         *)
+(* instance that can not be built (invalid address): that instance is reported      *)
+(* and skipped, the members are kept - as Prometheus does (BadDropsGroup = TRUE is    *)
+(* the behaviour before fix 77b6f2d: the group was skipped as a whole).               *)
 (***************************************************************************)
 EXTENDS Integers, Sequences, FiniteSets
 
@@ -21,8 +23,9 @@ Restrict(f, S) == [x \in S |-> f[x]]
 
 Init0 == [cfg |-> {}, active |-> <<>>, dropped |-> <<>>, q |-> <<>>, table |-> {}]
 
-Kept(groups)  == UNION {{m.id : m \in {m \in g.members : ~m.drop}} : g \in {g \in Rng(groups) : ~g.bad}}
-Drops(groups) == UNION {{m.id : m \in {m \in g.members : m.drop}} : g \in {g \in Rng(groups) : ~g.bad}}
+BadDropsGroup == FALSE
+Kept(groups)  == UNION {{m.id : m \in {m \in g.members : ~m.drop}} : g \in {g \in Rng(groups) : BadDropsGroup => ~g.bad}}
+Drops(groups) == UNION {{m.id : m \in {m \in g.members : m.drop}} : g \in {g \in Rng(groups) : BadDropsGroup => ~g.bad}}
 
 (* translateTargets: per job of the update that is configured, the sets are replaced *)
 Translate(d, S) ==
